@@ -411,6 +411,7 @@ func c11Gen(r *Rand, tier string) []string {
 			}
 		}
 	}
+	out = append(out, c11ArityGrid(r)...)
 	if tier == "thorough" {
 		out = append(out, c11Exhaustive(r)...)
 		out = append(out, c11LookupCases(r, 20000, true)...)
